@@ -97,6 +97,15 @@ var c03BadLiterals = []string{
 	"1.5e", "0x.p1", "'\\u{41}'", "\"\\\n\"", "1i", "0xg", "2147483648", "-2147483649", "4294967296", "9223372036854775808",
 }
 
+// malformed package clauses (and what may stand where one is expected)
+var c03BadClauses = []string{
+	"*package", "&package", "*package x", "&package x", "* package main", "-package", "-package main", "!package", "^package x", "(package x)", "(package)",
+	"package", "package 1", "package \"s\"", "package a b", "package a, b", "package a.b", "package main.x", "package a\npackage b", "package main\npackage main",
+	"x := 1\npackage main", "var x = 1\npackage", "func f() {}\npackage main", "", " ", "// only a comment", "/* c */", "//go:build goat\n", "package main\n*package", "package main; &package; 1",
+	"package main\nx := *package", "package main\nfunc f() { package }", "[]package", "$package", "package package", "package *x", "package func", "import \"fmt\"\npackage main",
+	"*import \"fmt\"", "&import", "package main\n*import", "package main\n&func", "package main\n*type", "package _", "package main;", ";package main", ";;\npackage main", "package\nmain",
+}
+
 var c03TypeNames = []string{"int", "string", "map", "struct", "[]int", "func", "bool", "float64", "interface", "error", "any", "map[string]int", "[]", "byte"}
 
 // hand-written seeds covering syntax the generators do not produce (alias imports, iota blocks,
@@ -237,7 +246,11 @@ var c03Muts = []c03Mut{
 			return s
 		}
 		i := r.intn(len(toks))
-		toks[i] = toks[i] + s
+		if r.chance(30) {
+			toks[i] = s + toks[i] // in front of a token (the first one included)
+		} else {
+			toks[i] = toks[i] + s
+		}
 		return c03Join(toks)
 	}},
 	{"mut-keyword", func(r *rng, src string) string {
@@ -245,10 +258,16 @@ var c03Muts = []c03Mut{
 		kw := pick(r, c03Symbols)
 		if idx := c03Solid(toks); len(idx) > 0 {
 			i := pick(r, idx)
-			if r.chance(50) {
+			if r.chance(25) {
+				i = idx[0] // the head of the file: the package clause, the first statement
+			}
+			switch r.intn(3) {
+			case 0:
 				toks[i] = kw
-			} else {
+			case 1:
 				toks[i] = toks[i] + " " + kw + " "
+			default:
+				toks[i] = kw + " " + toks[i] // a prefix: `*package`, `& import`, `- func`
 			}
 		} else {
 			toks = append(toks, kw)
@@ -320,7 +339,7 @@ var c03Muts = []c03Mut{
 	}},
 	{"mut-importalias", func(r *rng, src string) string {
 		p := pick(r, []string{`"lib"`, `"fmt"`, `"\400"`, `"\ud800"`, `"a/../lib"`, `""`, `"*"`, `"lib["`, `"cyc1"`, `"missing/pkg"`, "`lib`", `"bad"`, `"emptyp"`, `"./lib"`, `"lib/"`, `"\x00"`, `"conf"`,
-			`"."`, `".."`, `"/"`, `"/lib"`, `"lib//"`, `"lib\\"`, `"["`, `"[]"`, `"[a-"`, `"\\"`, `"a[b]"`, `"?"`, `"li*"`, `"vendor/ven"`, `"ven"`})
+			`"."`, `".."`, `"/"`, `"/lib"`, `"lib//"`, `"lib\\"`, `"["`, `"[]"`, `"[a-"`, `"\\"`, `"a[b]"`, `"?"`, `"li*"`, `"vendor/ven"`, `"ven"`, `"starpkg"`, `"amppkg"`})
 		form := pick(r, []string{"import %s\n", "import (\n\tz %s\n)\n", "import (z %s)\n", "import (\n\t%s\n\tf \"fmt\"\n)\n", "import z %s\n"})
 		return fmt.Sprintf(form, p) + src
 	}},
@@ -508,6 +527,9 @@ func c03EvalFS() map[string]string {
 		"alias/a.go":          "package alias\nimport (\n\tl \"lib\"\n)\nvar Q = l.V\n",
 		"badalias/a.go":       "package badalias\nimport (\n\tl \"\\400\"\n)\n",
 		"nilop/n.go":          "package nilop\nvar N = 1 /;\n",
+		"starpkg/s.go":        "*package starpkg\nvar S = 1\n",
+		"amppkg/a.go":         "package amppkg\n",
+		"amppkg/b.go":         "&package\n",
 	}
 }
 
@@ -572,7 +594,7 @@ func c03GenLoad(r *rng, c *c03Corpus) (files map[string]string, arg string, clas
 		return s
 	}
 	where := pick(r, []string{"main", "a", "b/c"})
-	switch r.intn(21) {
+	switch r.intn(23) {
 	case 0:
 		class = "load-valid"
 	case 1:
@@ -637,6 +659,34 @@ func c03GenLoad(r *rng, c *c03Corpus) (files map[string]string, arg string, clas
 	case 17:
 		files[where+"/ops.go"] = "package " + pkgName(where) + "\nvar O = 1 " + pick(r, []string{"/;", "+;", "*", "||;", ".;"}) + "\n"
 		class = "load-empty-operand"
+	case 21, 22:
+		// a malformed package clause, in a file of the argument package or of an imported one, for both Load forms.
+		// (`*package`: skipNud hands back the bare keyword token, a "package" node without children)
+		clause := pick(r, c03BadClauses)
+		if r.chance(35) {
+			// skipNud (prefix * and &) returns the NEXT token as it is: a keyword node without children
+			clause = pick(r, []string{"*", "&", "* ", "& "}) + pick(r, []string{"package", "package", "package x", "package main", "package " + pkgName(where), "import", "func", "type", "var", "if", "return"})
+		} else if r.chance(30) {
+			clause = pick(r, []string{"*", "&", "-", "!", "^", "(", "[]", "$", "* ", "&&", "**", "*&"}) + pick(r, []string{"package", "package " + pkgName(where), "import", "import \"fmt\"", "func", "type", "var", "const", "if", "for", "switch", "return", "map", "struct", "interface", "case", "default", "else", "range", "make"})
+		}
+		content := clause + pick(r, []string{"", "\n", "\nvar Z = 1\n", "\nfunc Zf() int { return 1 }\n", " x\n", ";\n"})
+		name := where + "/" + pick(r, []string{"0clause.go", "zclause.go", "a.go"})
+		if r.chance(50) {
+			// the only file of its package
+			for k := range files {
+				if strings.HasPrefix(k, where+"/") && !strings.Contains(k[len(where)+1:], "/") {
+					delete(files, k)
+				}
+			}
+		}
+		files[name] = content
+		switch r.intn(5) {
+		case 0:
+			arg = name // the single-file form
+		case 1, 2:
+			arg = where // the package with the malformed clause is the argument itself (read outside loadImports)
+		}
+		class = "load-package-clause"
 	case 19:
 		files[where+"/expr.go"] = "package " + pkgName(where) + "\n" + pick(r, []string{"42", "x := 1; x", "\"s\"", "1, 2", "len(\"abc\")", "func() int { return 1 }()", "nil", "true"}) + "\n"
 		class = "load-toplevel-value"
